@@ -88,7 +88,11 @@ where
                 }
                 self.region().truncate_write(from, &bytes)?;
             }
+            #[cfg(feature = "verif")]
+            crate::verif::point("rawwrite:after_region_write");
             self.base.update_stored_len(stored_len + pushed_len);
+            #[cfg(feature = "verif")]
+            crate::verif::point("rawwrite:len_published");
         } else if truncated {
             self.region().truncate(from)?;
         }
